@@ -88,3 +88,18 @@ Lemma sp_process_handled pol mc ev val c :
   let o := sp_level pol mc ev val c in
   o_taken o = true \/ o_rejected o = true -> sp_process pol mc ev val c = o.
 Proof. cbn zeta. intros [H|H]; unfold sp_process; rewrite H; [reflexivity | rewrite Bool.orb_true_r; reflexivity]. Qed.
+
+(* history: what a machine remembers when it is left is what the policy hands back when it is entered again *)
+Lemma sp_history_cycle mc c ety :
+  sp_hist_entry mc (sp_post_exit mc c) ety =
+  match m_hist mc with
+  | HNone => m_inits mc
+  | HAlways => c_act c
+  | HShallow evs => if memb ety evs then c_act c else m_inits mc
+  end.
+Proof. unfold sp_hist_entry, sp_post_exit. destruct (m_hist mc) as [| |evs]; destruct c; reflexivity. Qed.
+
+(* a machine that was never left starts from its initial states under the two remembering policies only if its memory
+   was initialised with them - which init_rnode does (Lemmas below are about the specification's own bookkeeping) *)
+Lemma sp_post_exit_keeps mc c : c_act (sp_post_exit mc c) = c_act c /\ c_kids (sp_post_exit mc c) = c_kids c.
+Proof. unfold sp_post_exit. destruct (m_hist mc); destruct c; auto. Qed.
